@@ -980,6 +980,105 @@ def _args_render(elems):
     return ', '.join(parts)
 
 
+OPT_FIELDS = [('assert (a)\n', 'body[0]', 'msg'), ('assert (a), "m"\n', 'body[0]', 'msg'), ('assert (a and\n b)\n', 'body[0]', 'msg'), ('assert (\n    a\n), (\n    m\n)\n', 'body[0]', 'msg'), ('assert a\n', 'body[0]', 'msg'),
+              ('raise (E)\n', 'body[0]', 'cause'), ('raise (E) from (c)\n', 'body[0]', 'cause'), ('raise E from c\n', 'body[0]', 'cause'), ('x: (int)\n', 'body[0]', 'value'), ('x: (int) = (1)\n', 'body[0]', 'value'),
+              ('def f() -> (r): pass\n', 'body[0]', 'returns'), ('def f(a=(1)): pass\n', 'body[0]', 'returns'), ('with (a) as (b): pass\n', 'body[0].items[0]', 'optional_vars'), ('with (a): pass\n', 'body[0].items[0]', 'optional_vars'),
+              ('with (a), (b) as c: pass\n', 'body[0].items[0]', 'optional_vars'), ('def g():\n    return (v)\n', 'body[0].body[0]', 'value'), ('def g():\n    return\n', 'body[0].body[0]', 'value'),
+              ('y = z[(a):(b):(c)]\n', 'body[0].value.slice', 'lower'), ('y = z[(a):(b):(c)]\n', 'body[0].value.slice', 'upper'), ('y = z[(a):(b):(c)]\n', 'body[0].value.slice', 'step'), ('y = z[::]\n', 'body[0].value.slice', 'upper'),
+              ('y = z[:]\n', 'body[0].value.slice', 'step'), ('match v:\n    case (x) if (g): pass\n', 'body[0].cases[0]', 'guard'), ('match v:\n    case (x): pass\n', 'body[0].cases[0]', 'guard'),
+              ('def f(a: (A) = (d)): pass\n', 'body[0].args.args[0]', 'annotation'), ('def f(a=(d)): pass\n', 'body[0].args.args[0]', 'annotation'), ('def f(*a: (A)): pass\n', 'body[0].args.vararg', 'annotation'),
+              ('try: pass\nexcept (E) as n: pass\n', 'body[0].handlers[0]', 'type'), ('type T[U: (B)] = V\n', 'body[0].type_params[0]', 'bound'), ('type T[U] = (V)\n', 'body[0].type_params[0]', 'bound'),
+              ('def g():\n    x = yield (v)\n', 'body[0].body[0].value', 'value'), ('def g():\n    x = (yield)\n', 'body[0].body[0].value', 'value'), ('if 1:\n    assert(a)if(b)else(c)\n', 'body[0].body[0]', 'msg')]
+GLUED = [('z = f((a)and(d))\n', 'body[0].value.args[0].values[0]'), ('z = f((a)and(d))\n', 'body[0].value.args[0].values[1]'), ('z = p in(a)in(d)\n', 'body[0].value.comparators[0]'), ('z = [(a)if(c)else(d)]\n', 'body[0].value.elts[0].body'),
+         ('z = [(a)if(c)else(d)]\n', 'body[0].value.elts[0].test'), ('z = [(a)for w in v]\n', 'body[0].value.elt'), ('z = [w for w in(a)if(c)]\n', 'body[0].value.generators[0].iter'), ('if x:\n    z = (a)or(d)\n', 'body[0].body[0].value.values[0]'),
+         ('if x:\n    z = not(a)\n', 'body[0].body[0].value.operand'), ('if x:\n    return_ = (a)is(d)\n', 'body[0].body[0].value.left'), ('z = lambda:(a)if(c)else(d)\n', 'body[0].value.body.body')]
+
+
+def stage_optional_and_glued(ctx: Ctx):
+    """deterministic: (a) every optional single-node field next to a PARENTHESIZED required neighbour created / replaced / deleted through every entry point with one-line and multi-line
+    code: exactly that field changes; (b) one operand that is parenthesized and glued to the keyword behind it replaced by code that spans lines: the new code does not merge with the keyword"""
+    import fst
+    codes = ['nn', '(nn)', 'nn.mm', 'ff(nn,\n   mm)', 'nn +\\\n mm']
+    for src, path, fld in OPT_FIELDS:
+        base = ast.parse(src)
+        present = getattr(eval('base.' + path), fld) is not None
+        jobs = [('put', c) for c in codes] + [('setattr', c) for c in codes[:2]]
+        if present:
+            jobs += [('put-none', None), ('delattr', None), ('child-remove', None)] + [('child-replace', c) for c in codes]
+        for how, code in jobs:
+            m = fst.FST(src, 'exec')
+            node = eval('m.' + path)
+            want = ast.parse(src)
+            setattr(eval('want.' + path), fld, None if code is None else ast.parse('(' + code + ')', mode='eval').body)
+            desc = {'src': src, 'node': path, 'field': fld, 'entry': how, 'code': code}
+            try:
+                esrc = ast.unparse(want)
+                want_c = canon(ast.parse(esrc))
+            except Exception:
+                continue
+            try:
+                if how == 'put':
+                    node.put(code, fld)
+                elif how == 'setattr':
+                    setattr(node, fld, code)
+                elif how == 'put-none':
+                    node.put(None, fld)
+                elif how == 'delattr':
+                    delattr(node, fld)
+                elif how == 'child-remove':
+                    getattr(node, fld).remove()
+                else:
+                    getattr(node, fld).replace(code)
+            except (fst.NodeError, ValueError, SyntaxError, NotImplementedError) as ex:
+                ctx.tick(None, 'optional-field:refused')
+                if m.src != src:
+                    ctx.violation('optional-field|refusal-dirty', 'a refused put changed the source', {**desc, 'error': repr(ex)[:200], 'result_src': m.src})
+                continue
+            except Exception as ex:
+                ctx.violation(f'optional-field|crash|{type(ex).__name__}', 'a put to an optional field raised an internal error', {**desc, 'error': repr(ex)[:300]})
+                continue
+            ctx.tick(('optional-field', src, path, fld, how, code), 'optional-field:' + how)
+            try:
+                got_src = canon(ast.parse(m.src))
+            except SyntaxError as ex:
+                got_src = ('SyntaxError', str(ex))
+            if canon(m.a) != want_c or got_src != want_c:
+                ctx.violation(f'optional-field|structure|{type(node.a).__name__}.{fld}', 'after putting / deleting an optional field the tree is not the old one with exactly that field changed',
+                              {**desc, 'result_src': m.src, 'expected_src': esrc, 'live_equals_expected': canon(m.a) == want_c})
+    for src, path in GLUED:
+        for code in ('b +\nc', 'b', 'b.c', '(b +\n c)', 'b if e else\nc', 'bb\n.c', 'b or\\\n c'):
+            for how in ('replace', 'fst'):
+                m = fst.FST(src, 'exec')
+                node = eval('m.' + path)
+                want = ast.parse(src)
+                parts = path.rsplit('.', 1)
+                holder = eval('want.' + parts[0])
+                new_ast = ast.parse('(' + code + ')', mode='eval').body
+                if '[' in parts[1]:
+                    f_, i_ = parts[1][:-1].split('[')
+                    getattr(holder, f_)[int(i_)] = new_ast
+                else:
+                    setattr(holder, parts[1], new_ast)
+                want_c = canon(ast.parse(ast.unparse(want)))
+                desc = {'src': src, 'node': path, 'code': code, 'entry': how}
+                try:
+                    node.replace(fst.FST(code, 'expr') if how == 'fst' else code)
+                except (fst.NodeError, ValueError, SyntaxError, NotImplementedError):
+                    ctx.tick(None, 'glued:refused')
+                    continue
+                except Exception as ex:
+                    ctx.violation(f'glued|crash|{type(ex).__name__}', 'replacing one operand raised an internal error', {**desc, 'error': repr(ex)[:300]})
+                    continue
+                ctx.tick(('glued', src, path, code, how), 'glued-operand:' + how)
+                try:
+                    got_src = canon(ast.parse(m.src))
+                except SyntaxError as ex:
+                    got_src = ('SyntaxError', str(ex))
+                if canon(m.a) != want_c or got_src != want_c:
+                    ctx.violation('glued|structure', 'after replacing an operand that was glued to the keyword behind it the tree is not the old one with exactly that operand changed',
+                                  {**desc, 'result_src': m.src, 'expected_src': ast.unparse(want), 'live_equals_expected': canon(m.a) == want_c})
+
+
 MHDR = 'From Coq Require Import List Bool Arith.\nFrom PF Require Import models.ArgMarkers.\nImport ListNotations.'
 _CATS = ['Pos', 'Arg', 'Var', 'Kwo', 'Kw']
 
@@ -1156,6 +1255,7 @@ def run(ctx: Ctx):
     run_guarded(ctx, stage_needy_elements)
     run_guarded(ctx, stage_clause_removal)
     run_guarded(ctx, stage_arguments_sweep)
+    run_guarded(ctx, stage_optional_and_glued)
 
 
 def replay(path):
